@@ -1,4 +1,5 @@
 import Driver.Tiny
+import Driver.Policy
 /-! `smdriver <component>`: replays a line-protocol trace from stdin through the model. -/
 open Driver
 
@@ -13,11 +14,26 @@ partial def loopTiny (h : IO.FS.Stream) (st : TinySt) (tl : Tally) : IO Tally :=
     let (st, tl) := stepTiny st tl act ans
     loopTiny h st tl
 
+partial def loopPolicy (h : IO.FS.Stream) (st : PolSt) (tl : Tally) (prev : Option PolSnap) : IO Tally := do
+  let line ← h.getLine
+  if line.isEmpty then return tl
+  let line := line.trimAscii.toString
+  if line.isEmpty || line.startsWith "#" then loopPolicy h st tl prev
+  else
+    let tl := { tl with lines := tl.lines + 1 }
+    let (act, ans) := splitBar line
+    let (st, tl, prev) := stepPolicy st tl act ans prev
+    loopPolicy h st tl prev
+
 def main (args : List String) : IO UInt32 := do
   let stdin ← IO.getStdin
   match args with
   | ["tiny"] =>
     let tl ← loopTiny stdin {} {}
+    tl.report
+    return (if tl.diverge + tl.monitorFail + tl.guardFail + tl.bad == 0 then 0 else 1)
+  | ["policy"] =>
+    let tl ← loopPolicy stdin {} {} none
     tl.report
     return (if tl.diverge + tl.monitorFail + tl.guardFail + tl.bad == 0 then 0 else 1)
   | _ =>
